@@ -234,6 +234,45 @@ example : ∃ s, exec init [.initOk, .ctorWait, .ctorGet, .startCheck, .startKic
 example : ∃ s, exec init [.initOk, .ctorWait, .ctorGet] = some s ∧ step s .join = none ∧ threadCanMove s = false :=
   ⟨_, rfl, by decide⟩
 
+/-- after a stop that came first the thread is never stuck short of its end: it has ended (join is enabled on an
+idle runner) or its next action (`wake` out of the READY_TO_RUN wait, or the thread's end) is enabled —
+`join()` after stop-before-start cannot wait for ever -/
+theorem join_after_stop_first_not_stuck {s : State} (h : Reachable s) (hs : s.stopFirst = true) :
+    s.pc = .ended ∨ (step s .wake).isSome = true ∨ (step s .threadEnd).isSome = true := by
+  have hi := inv_reachable h
+  have hst := hi.stopFirst_iff.1 hs
+  have h1 := hi.init_iff
+  have h2 := hi.inside
+  cases hpc : s.pc <;> simp_all [step, Pc.ranOut?]
+
+/-- what the driver's deadlock judgement relies on: `threadCanMove` is sound (some thread action is enabled) -/
+theorem threadCanMove_sound {s : State} (h : threadCanMove s = true) :
+    ∃ a, (a = .initOk ∨ a = .wake ∨ a = .runEnter ∨ a = .updPop ∨ a = .mark ∨ a = .threadEnd) ∧
+      (step s a).isSome = true := by
+  unfold threadCanMove at h
+  split at h
+  · rename_i hpc
+    refine ⟨.initOk, Or.inl rfl, ?_⟩
+    simp only [step, hpc]
+    cases s.st <;> rfl
+  · rename_i hpc
+    refine ⟨.wake, by simp, ?_⟩
+    have : s.st ≠ .ready := by simpa using h
+    simp only [step, hpc]
+    by_cases hr : s.st = .running <;> simp [this, hr]
+  · rename_i hpc; exact ⟨.runEnter, by simp, by simp [step, hpc]⟩
+  · contradiction
+  · rename_i hpc
+    refine ⟨.updPop, by simp, ?_⟩
+    simp only [step, hpc]
+    cases s.slot <;> rfl
+  · rename_i o hpc
+    refine ⟨.mark, by simp, ?_⟩
+    simp only [step, hpc]
+    cases o <;> rfl
+  · rename_i hpc; exact ⟨.threadEnd, by simp, by simp [step, hpc]⟩
+  · contradiction
+
 /-! ## is_running -/
 
 /-- `is_running()` answers true exactly between the `start_task` region that started the task and the region
